@@ -74,7 +74,7 @@ func runC17(p *Program, r *Report) {
 	r.Floor("C17.table", 5)
 	r.Floor("C17.lookup", 3)
 	r.Floor("C17.text", 3)
-	r.Floor("C17.mluc", 5)
+	r.Floor("C17.mluc", 8)
 	r.Floor("C17.pref", 1)
 }
 
@@ -388,11 +388,13 @@ func checkMluc(p *Program, r *Report) {
 	rule := "C17.mluc"
 	fn := p.Func("meta/icc", "parseMultiLocalisedUnicode")
 	set := p.Method("meta/icc", "MultiLocalisedUnicode", "setString")
-	if fn == nil || set == nil {
-		r.Undecide(rule, "parseMultiLocalisedUnicode", "-", "anchor not found")
+	dec := p.Func("meta/icc", "decodeUTF16BE")
+	if fn == nil || set == nil || dec == nil {
+		r.Undecide(rule, "parseMultiLocalisedUnicode", "-", "anchor not found (parseMultiLocalisedUnicode / setString / decodeUTF16BE)")
 		return
 	}
 	r.SawFn(shortFn(fn))
+	r.SawFn(shortFn(dec))
 	e := NewEngine(p)
 	e.EvalInits = true
 	e.MaxIter, e.MaxForks = 3, 3
@@ -405,19 +407,19 @@ func checkMluc(p *Program, r *Report) {
 			return
 		}
 	}
-	recSize := func() *Form {
-		// BE32 data[12:16]
+	dataBE := func(off *Form) *Form {
 		bv := &BV{Bits: make([]Bit, 32)}
 		for k := 0; k < 4; k++ {
-			f := e.A.App("index", types.Typ[types.Uint8], &Opaque{Key: "data"}, formInt(int64(12+k)))
+			f := e.A.App("index", types.Typ[types.Uint8], &Opaque{Key: "data"}, off.Add(formInt(int64(k))))
 			an, _ := f.SingleAtom()
 			for j := 0; j < 8; j++ {
 				bv.Bits[8*(3-k)+j] = Bit{Kind: 'a', A: an, Idx: j}
 			}
 		}
 		return e.fromBV(bv, types.Typ[types.Uint32])
-	}()
-	hdrOK, recOK, offOK, decOK, setOK := false, true, true, true, true
+	}
+	recSize := dataBE(formInt(12))
+	hdrOK, recOK, offOK, setOK, cntOK := false, true, true, true, false
 	nRec := 0
 	why := ""
 	for _, o := range outs {
@@ -431,7 +433,6 @@ func checkMluc(p *Program, r *Report) {
 		if ev, ok := tp[1].(*ErrVal); !ok || !ev.IsNil {
 			continue
 		}
-		// header: signature, record count data[8:12] compared with the loop counter
 		for _, c := range o.St.conds {
 			a, okA := c.A.(*Form)
 			b, okB := c.B.(*Form)
@@ -443,119 +444,153 @@ func checkMluc(p *Program, r *Report) {
 					hdrOK = true
 				}
 			}
+			// the record loop is bounded by BE32 data[8:12]
+			if c.Op == "<" || c.Op == ">=" {
+				if off, ok := dataBytesBE(e, b, "data", 4); ok && off.Equal(formInt(8)) {
+					if _, isC := a.ConstInt(); isC {
+						cntOK = true
+					}
+				}
+			}
 		}
-		// per record: decode + setString events in order
-		var stores, decs, sets, makes []Event
-		var sums []Event
+		var sets []Event
 		for _, ev := range o.St.events {
-			switch {
-			case ev.Kind == "loop-store":
-				stores = append(stores, ev)
-			case ev.Kind == "call" && ev.Fn == "unicode/utf16.Decode":
-				decs = append(decs, ev)
-			case ev.Kind == "trace":
+			if ev.Kind == "trace" {
 				sets = append(sets, ev)
-			case ev.Kind == "make":
-				makes = append(makes, ev)
-			case ev.Kind == "loop-summary":
-				sums = append(sums, ev)
 			}
 		}
-		if len(decs) != len(sets) || len(decs) != len(stores) {
-			if len(sets) > 0 {
-				decOK, why = false, fmt.Sprintf("%d records set, %d utf16.Decode calls, %d decode loops: the text is not string(utf16.Decode(code units))", len(sets), len(decs), len(stores))
-			}
-			continue
-		}
-		for j := range decs {
+		for j, sv := range sets {
 			nRec++
 			rec := formInt(16).Add(formInt(int64(j)).Mul(recSize))
-			// the decode loop of record j
-			stv := stores[j]
+			sa := sv.Args
+			if len(sa) != 4 {
+				setOK, why = false, "setString has an unexpected signature"
+				continue
+			}
+			wantAt := func(v Val, base int64) bool {
+				a, _ := v.(*Agg)
+				if a == nil || len(a.Elems) != 2 {
+					return false
+				}
+				for i := 0; i < 2; i++ {
+					at := appOf(e, a.Elems[i])
+					if at == nil || at.Fn != "index" || valKey(at.Args[0]) != "data" {
+						return false
+					}
+					ix, _ := at.Args[1].(*Form)
+					if ix == nil || !ix.Equal(rec.Add(formInt(base+int64(i)))) {
+						return false
+					}
+				}
+				return true
+			}
+			if !wantAt(sa[1], 0) || !wantAt(sa[2], 2) {
+				setOK, why = false, fmt.Sprintf("record %d is stored under (%s, %s); required language data[rec:rec+2], country data[rec+2:rec+4] with rec = 16 + %d·recordSize", j, trunc(valKey(sa[1]), 60), trunc(valKey(sa[2]), 60), j)
+			}
+			sl, _ := sa[3].(*SliceVal)
+			if sl == nil || sl.Base == nil || sl.Base.Key != "data" {
+				offOK, why = false, fmt.Sprintf("record %d: the stored text is %s, not a sub-slice of the tag data", j, trunc(valKey(sa[3]), 100))
+				continue
+			}
+			if !sl.Lo.Equal(dataBE(rec.Add(formInt(8)))) {
+				offOK = false
+				why = fmt.Sprintf("record %d: the text starts at %s; required the record's declared string offset BE32 data[rec+8:rec+12], wherever the strings are placed", j, trunc(sl.Lo.Key(), 100))
+			}
+			if !sl.Len.Equal(dataBE(rec.Add(formInt(4)))) {
+				recOK = false
+				why = fmt.Sprintf("record %d: the text length is %s; required BE32 data[rec+4:rec+8]", j, trunc(sl.Len.Key(), 100))
+			}
+		}
+	}
+	r.Check(hdrOK, rule, "signature", pos, "BE32 data[0:4] == 'mluc' is required", "the 'mluc' signature is not checked")
+	r.Check(cntOK, rule, "record count", pos, "the record loop is bounded by BE32 data[8:12]", "the record count is not BE32 data[8:12]")
+	r.Check(recOK && nRec > 0, rule, "record layout", pos, fmt.Sprintf("%d records on explored paths: record j at 16 + j·BE32 data[12:16]; length BE32 at +4", nRec), why)
+	r.Check(offOK && nRec > 0, rule, "offset-use", pos, "the text of a record is data[offset : offset+length] with offset = the record's BE32 at +8: taken from the declared offset, wherever the strings are placed", why)
+	r.Check(setOK && nRec > 0, rule, "keying", pos, "stored under language = data[rec:rec+2], country = data[rec+2:rec+4]", why)
+
+	// decodeUTF16BE(b) = string(utf16.Decode(units)), units[k] = b[2k]<<8 | b[2k+1], k < len(b)/2
+	e2 := NewEngine(p)
+	outs2 := e2.Run(dec, symArgs(e2, dec), nil)
+	decOK, decWhy := false, "decodeUTF16BE is not a single path"
+	if len(outs2) == 1 && outs2[0].Kind == "return" {
+		o := outs2[0]
+		var stv, du *Event
+		for k := range o.St.events {
+			ev := &o.St.events[k]
+			if ev.Kind == "loop-store" {
+				stv = ev
+			}
+			if ev.Kind == "call" && ev.Fn == "unicode/utf16.Decode" {
+				du = ev
+			}
+		}
+		b := dec.Params[0].Name()
+		if stv != nil && du != nil {
 			k, _ := stv.Args[0].(*Form)
 			first, _ := stv.Args[1].(*Form)
 			limit, _ := stv.Args[2].(*Form)
 			idx, _ := stv.Args[3].(*Form)
 			val, _ := stv.Args[4].(*Form)
-			if !first.Equal(formInt(0)) || !idx.Equal(k) {
-				decOK, why = false, "decode loop does not fill units[k] for k from 0"
-				continue
-			}
-			// limit = length/2 with length = BE32 data[rec+4 : rec+8]
-			lat := appOf(e, limit)
-			lenOK := false
-			if lat != nil && lat.Fn == "idiv" && len(lat.Args) == 2 && valKey(lat.Args[1]) == "2" {
-				if lf, ok := lat.Args[0].(*Form); ok {
-					if off, ok := dataBytesBE(e, lf, "data", 4); ok && off.Equal(rec.Add(formInt(4))) {
-						lenOK = true
-					}
-				}
-			}
-			if !lenOK {
-				recOK, why = false, fmt.Sprintf("record %d: the number of code units is %s; required BE32 data[rec+4:rec+8]/2 with rec = 16 + %d·recordSize", j, trunc(limit.Key(), 100), j)
-			}
-			// value = data[X+2k]<<8 | data[X+2k+1], X = BE32 data[rec+8 : rec+12]
-			bv := e.BVOf(val, types.Typ[types.Uint16])
+			lat := appOf(e2, limit)
+			good := first.Equal(formInt(0)) && idx.Equal(k) && lat != nil && lat.Fn == "idiv" && valKey(lat.Args[1]) == "2" && strings.Contains(valKey(lat.Args[0]), "len("+b+")")
+			bv := e2.BVOf(val, types.Typ[types.Uint16])
 			runs := bv.Runs()
-			good := len(runs) == 2 && runs[0].Kind == 'a' && runs[1].Kind == 'a' && runs[0].Width == 8 && runs[1].Width == 8
-			if good {
-				lo, hi := e.A.get(runs[0].A), e.A.get(runs[1].A)
-				good = lo != nil && hi != nil && lo.Fn == "index" && hi.Fn == "index" && valKey(lo.Args[0]) == "data" && valKey(hi.Args[0]) == "data"
-				if good {
+			if good && len(runs) == 2 && runs[0].Width == 8 && runs[1].Width == 8 {
+				lo, hi := e2.A.get(runs[0].A), e2.A.get(runs[1].A)
+				if lo != nil && hi != nil && lo.Fn == "index" && hi.Fn == "index" && valKey(lo.Args[0]) == b && valKey(hi.Args[0]) == b {
 					hiIdx, _ := hi.Args[1].(*Form)
 					loIdx, _ := lo.Args[1].(*Form)
-					X := hiIdx.Sub(formInt(2).Mul(k))
-					good = loIdx.Equal(hiIdx.Add(formInt(1)))
-					if good {
-						if off, ok := dataBytesBE(e, X, "data", 4); !ok || !off.Equal(rec.Add(formInt(8))) {
-							offOK = false
-							why = fmt.Sprintf("record %d: code unit k is read from data[%s…]; required data[offset+2k], data[offset+2k+1] with offset = BE32 data[rec+8:rec+12] (the record's declared string offset)", j, trunc(hiIdx.Key(), 100))
+					if hiIdx.Equal(formInt(2).Mul(k)) && loIdx.Equal(formInt(2).Mul(k).Add(formInt(1))) {
+						dsl, _ := du.Args[0].(*SliceVal)
+						rk := valKey(o.Ret)
+						if dsl != nil && dsl.Base != nil && dsl.Base.Key == stv.Recv.(*Ptr).Base.Key && strings.Contains(rk, "convert:string(") && strings.Contains(rk, "utf16.Decode") {
+							decOK = true
+						} else {
+							decWhy = "the result is " + trunc(rk, 100) + ", not string(utf16.Decode(code units)): surrogate pairs are not combined"
 						}
 					} else {
-						decOK, why = false, "code units are not big-endian byte pairs"
+						decWhy = "code unit k is not b[2k]<<8 | b[2k+1]"
 					}
 				}
+			} else if good {
+				decWhy = "code units are not big-endian byte pairs: " + trunc(val.Key(), 100)
+			} else {
+				decWhy = "the decode loop does not fill units[k] for k in [0, len(b)/2)"
 			}
-			if !good && decOK {
-				offOK, why = false, fmt.Sprintf("record %d: code unit k is %s; required data[offset+2k]<<8 | data[offset+2k+1] taken from the record's declared offset", j, trunc(val.Key(), 120))
-			}
-			// Decode argument = that slice, setString(language, country, string(Decode(...)))
-			dsl, _ := decs[j].Args[0].(*SliceVal)
-			if dsl == nil || dsl.Base == nil || dsl.Base.Key != stv.Recv.(*Ptr).Base.Key {
-				decOK, why = false, "utf16.Decode is not applied to the code units just read"
-			}
-			sa := sets[j].Args
-			if len(sa) == 4 {
-				lang, _ := sa[1].(*Agg)
-				ctry, _ := sa[2].(*Agg)
-				wantAt := func(a *Agg, base int64) bool {
-					if a == nil || len(a.Elems) != 2 {
-						return false
-					}
-					for i := 0; i < 2; i++ {
-						at := appOf(e, a.Elems[i])
-						if at == nil || at.Fn != "index" || valKey(at.Args[0]) != "data" {
-							return false
-						}
-						ix, _ := at.Args[1].(*Form)
-						if ix == nil || !ix.Equal(rec.Add(formInt(base+int64(i)))) {
-							return false
-						}
-					}
-					return true
-				}
-				if !wantAt(lang, 0) || !wantAt(ctry, 2) {
-					setOK, why = false, fmt.Sprintf("record %d is stored under (%s, %s); required language data[rec:rec+2], country data[rec+2:rec+4]", j, trunc(valKey(sa[1]), 60), trunc(valKey(sa[2]), 60))
-				}
-				if tk := valKey(sa[3]); !strings.Contains(tk, "convert:string(") || !strings.Contains(tk, "utf16.Decode") {
-					decOK, why = false, "the stored text is "+trunc(tk, 100)+", not string(utf16.Decode(code units)): surrogate pairs are not combined"
-				}
-			}
+		} else {
+			decWhy = "no utf16.Decode over a filled code-unit slice: the text is not decoded as UTF-16"
 		}
 	}
-	r.Check(hdrOK, rule, "signature", pos, "BE32 data[0:4] == 'mluc' is required", "the 'mluc' signature is not checked")
-	r.Check(recOK && nRec > 0, rule, "record layout", pos, fmt.Sprintf("%d records on explored paths: record j at 16 + j·BE32 data[12:16]; length BE32 at +4", nRec), why)
-	r.Check(offOK && nRec > 0, rule, "offset-use", pos, "code unit k = data[offset+2k]<<8 | data[offset+2k+1], offset = the record's BE32 at +8: the text comes from the declared offset, wherever the strings are placed", why)
-	r.Check(decOK && nRec > 0, rule, "UTF-16BE decode", pos, "text = string(utf16.Decode(units)) with length/2 units", why)
-	r.Check(setOK && nRec > 0, rule, "keying", pos, "stored under language = data[rec:rec+2], country = data[rec+2:rec+4]", why)
+	r.Check(decOK, rule, "UTF-16BE decode", p.FnPos(dec), "decodeUTF16BE(b) = string(utf16.Decode(u)), u[k] = b[2k]<<8 | b[2k+1] for k < len(b)/2", decWhy)
+
+	// the getters decode what was stored
+	for _, g := range []string{"getStringForLanguage", "getAnyString"} {
+		gf := p.Method("meta/icc", "MultiLocalisedUnicode", g)
+		if gf == nil {
+			r.Undecide(rule, g, "-", "getter not found")
+			continue
+		}
+		r.SawFn(shortFn(gf))
+		e3 := NewEngine(p)
+		e3.Opaque = opaqueSet(dec)
+		e3.MaxIter, e3.MaxForks = 2, 3
+		outs3 := e3.Run(gf, symArgs(e3, gf), nil)
+		good, gwhy := false, "no path returns decodeUTF16BE(stored bytes)"
+		for _, o := range outs3 {
+			if o.Kind == "stuck" {
+				gwhy = "not extractable: " + o.Why
+			}
+			if o.Kind != "return" {
+				continue
+			}
+			rk := valKey(o.Ret)
+			if strings.Contains(rk, "call:meta/icc.decodeUTF16BE(") && strings.Contains(rk, "mapval(") {
+				good = true
+			} else if rk != "\"\"" && !strings.Contains(rk, "decodeUTF16BE") {
+				good, gwhy = false, "a path returns "+trunc(rk, 80)+" without decoding the stored UTF-16BE bytes"
+				break
+			}
+		}
+		r.Check(good, rule, g, p.FnPos(gf), "returns decodeUTF16BE(the stored bytes of a matching record), or \"\" when there is none", gwhy)
+	}
 }
